@@ -31,7 +31,7 @@ type Answer struct {
 }
 
 type Action struct {
-	Transport string `json:"transport"`           // ok|status|reset|cut|nonjson|unwrapped|truncjson|emptybody|emptyitems|wrongrole|badcontent|big
+	Transport string `json:"transport"`           // ok|status|reset|cut|nonjson|unwrapped|truncjson|emptybody|emptyitems|wrongrole|badcontent|typemismatch|big
 	Status    int    `json:"status"`              // HTTP status sent
 	BodyMode  string `json:"body_mode,omitempty"` // status only: empty|errjson|good
 	Shape     string `json:"shape"`               // how the text is wrapped in the provider's response shape
@@ -493,6 +493,29 @@ func render(provider string, a Action, kind string) (status int, body []byte, se
 		} else {
 			body = mustJSON(m{"candidates": []any{m{"content": m{"role": "model", "parts": []any{m{"inlineData": m{"mimeType": "text/plain", "data": "AAAA"}}}}}}})
 		}
+	case "typemismatch":
+		// valid JSON that carries the passing answer but does not fit the provider's schema:
+		// a number among the items / candidates, or an item whose role is a number. A decoder
+		// reports the mismatch only after it has filled in everything else.
+		var top map[string]any
+		key := "items"
+		if provider != "openai" {
+			key = "candidates"
+		}
+		if json.Unmarshal(wrap(provider, map[bool]string{true: "str", false: "g1"}[provider == "openai"], ans.Text, 0), &top) != nil {
+			panic("typemismatch: cannot re-read the wrapped answer")
+		}
+		list, _ := top[key].([]any)
+		switch a.Variant % 3 {
+		case 0:
+			list = append(list, 7)
+		case 1:
+			list = append([]any{m{"type": "message", "role": 5, "content": "draft"}}, list...)
+		default:
+			list = append([]any{"preamble"}, list...)
+		}
+		top[key] = list
+		body = mustJSON(top)
 	case "big":
 		var t string
 		if kind == "sentinel" {
